@@ -62,8 +62,19 @@ WhyU(j) == [group |-> Obs[j].group, ref |-> "union of parts", alt |-> Obs[j].nam
 
 IsUnion == Params.rel = "UnionOfParts"
 
-ASSUME IF IsUnion THEN PrintT(<<"PAIRS", Cardinality(Alts), "BAD", Cardinality(BadU)>>)
-       ELSE PrintT(<<"PAIRS", Cardinality(Pairs), "BAD", Cardinality(Bad)>>)
-ASSUME IF IsUnion THEN ndJsonSerialize(IOEnv.OUT, [i \in 1..Cardinality(BadU) |-> WhyU(SetToSeq(BadU)[i])])
-       ELSE ndJsonSerialize(IOEnv.OUT, [i \in 1..Cardinality(Bad) |-> Why(Obs[SetToSeq(Bad)[i][1]], Obs[SetToSeq(Bad)[i][2]])])
+\* ---- a relation on single runs: "UniquePrimary": no two reported findings share the primary identity `pk'
+\* (id, primary location, message) - a finding is reported exactly once even when its secondary locations differ
+PkSeq(o) == [i \in DOMAIN Kept(o) |-> Kept(o)[i].pk]
+DupPk(o) == {k \in {PkSeq(o)[i] : i \in DOMAIN PkSeq(o)} : Count(PkSeq(o), k) > 1}
+IsUnique == Params.rel = "UniquePrimary"
+BadQ == {j \in DOMAIN Obs : DupPk(Obs[j]) # {}}
+WhyQ(j) == [group |-> Obs[j].group, ref |-> "-", alt |-> Obs[j].name, rel |-> Params.rel,
+            onlyRef |-> <<>>, onlyAlt |-> SetToSeq(DupPk(Obs[j])), exitRef |-> 0, exitAlt |-> Obs[j].exit]
+
+ASSUME CASE IsUnion  -> PrintT(<<"PAIRS", Cardinality(Alts), "BAD", Cardinality(BadU)>>)
+         [] IsUnique -> PrintT(<<"PAIRS", Len(Obs), "BAD", Cardinality(BadQ)>>)
+         [] OTHER    -> PrintT(<<"PAIRS", Cardinality(Pairs), "BAD", Cardinality(Bad)>>)
+ASSUME CASE IsUnion  -> ndJsonSerialize(IOEnv.OUT, [i \in 1..Cardinality(BadU) |-> WhyU(SetToSeq(BadU)[i])])
+         [] IsUnique -> ndJsonSerialize(IOEnv.OUT, [i \in 1..Cardinality(BadQ) |-> WhyQ(SetToSeq(BadQ)[i])])
+         [] OTHER    -> ndJsonSerialize(IOEnv.OUT, [i \in 1..Cardinality(Bad) |-> Why(Obs[SetToSeq(Bad)[i][1]], Obs[SetToSeq(Bad)[i][2]])])
 =============================================================================
